@@ -480,6 +480,7 @@ class Geo:
         self.proj: List[List[List[str]]] = []  # per block, per corner: labels
         self.wires: List[Dict[frozenset, Tuple[str, float]]] = []  # per block: corners -> (kind, length)
         self.edges: Dict[Tuple[int, frozenset], dict] = {}  # first location -> record
+        self.faces: List[Tuple[np.ndarray, str]] = []  # projected sides: (4 corner positions, label)
         self.extent = 1.0
 
 
@@ -522,6 +523,8 @@ def geo_of(addables, facts: dict, what: str) -> Geo:
                         rec["labels"] = [_lab(lb) for lb in e.data.label]
                     g.edges[(bi, frozenset((c1, c2)))] = rec
                 g.wires.append(wires)
+            for pf in mesh.face_list.faces:
+                g.faces.append((np.array([v.position for v in pf.side.vertices], dtype=float), _lab(pf.label)))
     except Violation:
         raise
     except Exception as ex:
@@ -601,6 +604,27 @@ def compare(g0: Geo, g1: Geo, ap: Applied, shared: Optional[set] = None, pos_tol
             k0, l0 = g0.wires[bi][frozenset((mp[c1], mp[c2]))]
             if k0 == "line" and k1 == "line" and abs(l1 - s * l0) > len_tol * s * l0 + 1e-12:
                 out.append(Disc("edge-length", f"block {bi} line {c1}-{c2}: length {l1} != {s} * {l0}", edge_kind="line"))
+    # projected sides: the same label on the same four corners (as a set of positions)
+    if not bad_all:
+        want = [(lab, rm.apply(M, pts)) for pts, lab in g0.faces]
+        got = [(lab, pts) for pts, lab in g1.faces]
+        if len(want) != len(got):
+            out.append(Disc("projection-changed", f"{len(g0.faces)} projected sides before, {len(g1.faces)} after"))
+        else:
+            used = set()
+            for lab, pts in want:
+                hit = None
+                for j, (lab1, pts1) in enumerate(got):
+                    if j in used or lab1 != lab:
+                        continue
+                    d = np.linalg.norm(pts[:, None, :] - pts1[None, :, :], axis=2)
+                    if np.all(d.min(axis=1) <= tol) and np.all(d.min(axis=0) <= tol):
+                        hit = j
+                        break
+                if hit is None:
+                    out.append(Disc("projection-changed", f"the side projected to '{lab}' at {pts.tolist()} is not projected after"))
+                    break
+                used.add(hit)
     # curved edges, matched by location
     e1map = {}
     for (bi, cs), rec in g1.edges.items():
@@ -779,9 +803,58 @@ def shared_corners(addables) -> set:
 # ---- single face with one kind of edge; edge data alone -------------------------------------------
 
 
+_PLABELS = [[], [], ["terrain"], ["wall", "terrain"], ["geo"]]
+SIDES = ["bottom", "top", "front", "right", "back", "left"]
+
+
+@st.composite
+def face_proj(draw):
+    """projections of a face: per-corner labels (Point.project) and Face.project(label, points=...)"""
+    return {"pp": [draw(st.sampled_from(_PLABELS)) for _ in range(4)],
+            "fp": draw(st.sampled_from([None, None, {"label": "geo", "points": False}, {"label": "geo", "points": True}]))}
+
+
+def apply_face_proj(face, pr) -> None:
+    if not pr:
+        return
+    for i, labs in enumerate(pr["pp"]):
+        for lb in labs:
+            face.points[i].project(lb)
+    if pr["fp"]:
+        face.project(pr["fp"]["label"], edges=False, points=pr["fp"]["points"])
+
+
+@st.composite
+def op_proj(draw):
+    """projections of an operation: project_corner and project_side(..., points=...)"""
+    nc, ns = draw(st.integers(0, 3)), draw(st.integers(0, 2))
+    return {"corners": [[draw(st.integers(0, 7)), draw(st.sampled_from(["terrain", "wall"]))] for _ in range(nc)],
+            "sides": [[draw(st.sampled_from(SIDES)), draw(st.sampled_from(["geo", "terrain"])), draw(st.booleans())] for _ in range(ns)]}
+
+
+def apply_op_proj(op, pr) -> None:
+    if not pr:
+        return
+    for corner, label in pr["corners"]:
+        op.project_corner(corner, label)
+    for side, label, points in pr["sides"]:
+        op.project_side(side, label, edges=False, points=points)
+
+
+def proj_labels(pr) -> List[str]:
+    if not pr:
+        return []
+    out = []
+    if any(pr.get("pp", [])) or pr.get("corners") or any(s[2] for s in pr.get("sides", [])) or (pr.get("fp") or {}).get("points"):
+        out.append("projected-corner")
+    if pr.get("fp") or pr.get("sides"):
+        out.append("projected-side")
+    return out
+
+
 @st.composite
 def face_params(draw, kind: Optional[str]):
-    p = {"frame": draw(frames()), "quad": draw(quad_local()), "edges": [None, None, None, None]}
+    p = {"frame": draw(frames()), "quad": draw(quad_local()), "edges": [None, None, None, None], "proj": draw(face_proj())}
     if kind == "mixed":
         kinds = draw(st.permutations(EDGE_KINDS))[:4]
         for i in range(4):
@@ -803,7 +876,9 @@ def _face_world(params):
 
 def build_face(params):
     fr, P, top = _face_world(params)
-    return cb.Face(P, [make_edge(params["edges"][i], P[i], P[(i + 1) % 4]) for i in range(4)])
+    face = cb.Face(P, [make_edge(params["edges"][i], P[i], P[(i + 1) % 4]) for i in range(4)])
+    apply_face_proj(face, params.get("proj"))
+    return face
 
 
 def prep_face(ent, params):
@@ -833,7 +908,7 @@ def _edge_labels(specs) -> List[str]:
 
 for _k in [None, *EDGE_KINDS, "mixed"]:
     _reg(Ent(f"face-{_k or 'line'}", "face", face_params(_k), build_face, realize_face, prep_face,
-             curved=_face_curved, quick=18 if _k in ("oncurve", "mixed") else 28, labels=lambda p: ["closing-edge"] * (p["edges"][3] is not None) + _edge_labels(p["edges"])))
+             curved=_face_curved, quick=18 if _k in ("oncurve", "mixed") else 28, labels=lambda p: ["closing-edge"] * (p["edges"][3] is not None) + _edge_labels(p["edges"]) + proj_labels(p.get("proj"))))
 
 
 @st.composite
@@ -872,7 +947,7 @@ for _k in EDGE_KINDS:
 @st.composite
 def loft_params(draw, kind: str):
     p = {"frame": draw(frames()), "bottom": draw(quad_local(-0.5)), "top": draw(quad_local(0.5)),
-         "edges": [None] * 12}
+         "edges": [None] * 12, "proj": draw(op_proj())}
     n = draw(st.integers(1, 4))
     where = draw(st.permutations(list(range(12))))[:n]
     for w in where:
@@ -890,11 +965,12 @@ def build_loft(params):
     for i in range(4):
         if e[8 + i] is not None:
             loft.add_side_edge(i, make_edge(e[8 + i], B[i], T[i]))
+    apply_op_proj(loft, params.get("proj"))
     return loft
 
 
 def _loft_labels(p):
-    out = _edge_labels(p["edges"])
+    out = _edge_labels(p["edges"]) + proj_labels(p.get("proj"))
     if any(x is not None for x in p["edges"][:8]):
         out.append("curved-face-edge")
     if any(x is not None for x in p["edges"][8:]):
@@ -922,7 +998,8 @@ def build_extrude(params):
     return cb.Extrude(face, amount)
 
 
-_reg(Ent("extrude", "op", extrude_params(), build_extrude, curved=_face_curved, quick=24, labels=lambda p: _edge_labels(p["edges"])))
+_reg(Ent("extrude", "op", extrude_params(), build_extrude, curved=_face_curved, quick=24,
+         labels=lambda p: _edge_labels(p["edges"]) + proj_labels(p.get("proj"))))
 
 
 @st.composite
@@ -931,7 +1008,7 @@ def revolve_params(draw, wedge: bool = False):
     quad = [[x * 1.2 + draw(fl(-0.1, 0.1)), 1.2 + y * 0.9 + draw(fl(-0.1, 0.1)), 0.0] for x, y in _SQ]
     p = {"frame": draw(frames()), "quad": quad, "edges": [None] * 4,
          "angle": draw(fl(0.2, 1.5)) * (1 if wedge else draw(st.sampled_from([1, -1]))),
-         "axis_mag": draw(st.sampled_from([1.0, 0.5, 3.0])), "shift": draw(fl(-1, 1))}
+         "axis_mag": draw(st.sampled_from([1.0, 0.5, 3.0])), "shift": draw(fl(-1, 1)), "proj": draw(face_proj())}
     if draw(st.booleans()):
         i = draw(st.integers(0, 3))
         p["edges"][i] = draw(edge_spec(draw(st.sampled_from(["arc", "spline", "origin"]))))
@@ -942,29 +1019,39 @@ def build_revolve(params):
     fr = Frame(params["frame"])
     P = fr.p(params["quad"])
     face = cb.Face(P, [make_edge(params["edges"][i], P[i], P[(i + 1) % 4]) for i in range(4)])
+    apply_face_proj(face, params.get("proj"))
     return cb.Revolve(face, params["angle"], fr.d([1, 0, 0]) * params["axis_mag"], fr.p([params["shift"], 0, 0]))
 
 
-_reg(Ent("revolve", "op", revolve_params(), build_revolve, quick=30, labels=lambda p: _edge_labels(p["edges"])))
+_reg(Ent("revolve", "op", revolve_params(), build_revolve, quick=30,
+         labels=lambda p: _edge_labels(p["edges"]) + proj_labels(p.get("proj"))))
 
 
 def build_wedge(params):
     # Wedge revolves about the global x axis: the cross-section stays in the global x-y plane
     P = np.array(params["quad"], dtype=float) * params["frame"]["size"]
     face = cb.Face(P, [make_edge(params["edges"][i], P[i], P[(i + 1) % 4]) for i in range(4)])
+    apply_face_proj(face, params.get("proj"))
     return cb.Wedge(face, params["angle"])
 
 
-_reg(Ent("wedge", "op", revolve_params(wedge=True), build_wedge, quick=28, labels=lambda p: _edge_labels(p["edges"])))
+_reg(Ent("wedge", "op", revolve_params(wedge=True), build_wedge, quick=28,
+         labels=lambda p: _edge_labels(p["edges"]) + proj_labels(p.get("proj"))))
 
 
 @st.composite
 def box_params(draw):
     a = draw(point3(5))
-    return {"a": a, "b": [a[i] + draw(fl(0.3, 3.0)) * draw(st.sampled_from([1, -1])) for i in range(3)]}
+    return {"a": a, "b": [a[i] + draw(fl(0.3, 3.0)) * draw(st.sampled_from([1, -1])) for i in range(3)], "proj": draw(op_proj())}
 
 
-_reg(Ent("box", "op", box_params(), lambda p: cb.Box(p["a"], p["b"]), quick=24))
+def build_box(p):
+    box = cb.Box(p["a"], p["b"])
+    apply_op_proj(box, p.get("proj"))
+    return box
+
+
+_reg(Ent("box", "op", box_params(), build_box, quick=24, labels=lambda p: proj_labels(p.get("proj"))))
 
 
 @st.composite
